@@ -482,6 +482,29 @@ def r7(ctx):
     c09.r2(ctx)
 
 
+def r8(ctx):
+    """Command-line plumbing of the selections: an option that stands for a collection (`--chromosome`, `--sample`: list
+    default, tested with `in` / iterated by the run function) is declared so that argparse delivers a list.  Without
+    action="append" / nargs the value is a string and `chromosome not in chromosomes` becomes a substring test: records of
+    chromosomes that were not requested are phased."""
+    n = 0
+    for q, fi in sorted(ctx.prog.functions.items()):
+        if not (q.startswith("whatshap.cli.") and q.endswith(".add_arguments")):
+            continue
+        for c in ctx.prog.calls_in(fi.node):
+            kw = {k.arg: k.value for k in c.keywords if k.arg}
+            opts = [a.value for a in c.args if isinstance(a, ast.Constant) and isinstance(a.value, str) and a.value.startswith("-")]
+            if not opts or "default" not in kw:
+                continue
+            if not (isinstance(kw["default"], (ast.List, ast.Tuple, ast.Set)) or (isinstance(kw["default"], ast.Call) and u(kw["default"].func) in ("list", "set", "tuple"))):
+                continue
+            n += 1
+            act = u(kw["action"]) if "action" in kw else None
+            ok = act in ("'append'", "'extend'") or "nargs" in kw
+            ctx.ob(fi.qual, "collection-option-delivers-a-list:%s" % opts[-1], ok, fi.loc(c), "%s collects its values into a list (%s)" % (opts[-1], act or "nargs") if ok else "%s has a list default but no action='append' / nargs: argparse stores a plain string, and membership tests on it (`x in %s`) match substrings" % (opts[-1], u(kw.get("dest")) if kw.get("dest") is not None else "the option"))
+    ctx.require(n >= 4, "fewer than four collection-valued options found in whatshap.cli")
+
+
 RULES = [
     ("C04.R1", "record conservation: generator, parking, chromosome loops", r1),
     ("C04.R2", "store confinement: only the phase encoding of a call is assigned", r2),
@@ -490,7 +513,8 @@ RULES = [
     ("C04.R5", "header: removals confined, everything else adds", r5),
     ("C04.R6", "GT changes are reported and imply --distrust-genotypes", r6),
     ("C04.R7", "old phase information is removed from every target call that is not re-phased", r7),
+    ("C04.R8", "selection options (--chromosome, --sample) are delivered as lists", r8),
 ]
 # instance floors: about 60% of the instances confirmed by hand on the reference tree -- a rule that suddenly matches far fewer
 # sites fails the run (exit 2); a clean-up that merges two sites into one does not
-FLOORS = {"C04.R1": 15, "C04.R2": 5, "C04.R3": 1, "C04.R4": 6, "C04.R5": 3, "C04.R6": 3, "C04.R7": 4}
+FLOORS = {"C04.R1": 15, "C04.R2": 5, "C04.R3": 1, "C04.R4": 6, "C04.R5": 3, "C04.R6": 3, "C04.R7": 4, "C04.R8": 5}
